@@ -642,7 +642,7 @@ func sigtermTrial(r *vh.Run, bin string, i int) {
 			_, _ = pw.Write(sb[len(sb)/2:])
 			_ = pw.Close()
 		}()
-		time.Sleep(20 * time.Millisecond) // let the first half arrive
+		time.Sleep(100 * time.Millisecond) // let the first half arrive
 		r.Count("straddling_uploads", 1)
 	}
 	mu.Lock()
@@ -1168,6 +1168,12 @@ func main() {
 	r.Require("listen_trials", int64(nl/2))
 	nco := r.N(8, 40)
 	vh.Parallel(nco, 3, func(i int) { convertedOffTrial(r, i) })
+	if su, sa := r.Counter("straddling_uploads"), r.Counter("straddling_uploads_acknowledged"); su >= 4 && sa == 0 {
+		// a stop that is clean lets requests in flight finish: each of these uploads had half of its body at the server
+		// before the signal and delivered the rest 30 ms after it.  One may be unlucky; none at all out of four or more
+		// means the requests in flight are cut off the moment the signal arrives
+		r.Violation("sigterm:requests-in-flight-cut-off", fmt.Sprintf("none of %d uploads that straddled the termination signal (rest of the body 30 ms after it) was completed", su), map[string]any{"straddling_uploads": su})
+	}
 	r.Count("cases", nd+nt+nr+nbin+nsig+nl)
 	r.Require("default_trials", int64(nd))
 	r.Require("inproc_table_trials", int64(nt*3/4))
